@@ -1266,6 +1266,8 @@ pub fn parse_chunk_size(buf: &[u8])
     loop {
         let b = next!(bytes);
         match b {
+            // A chunk size needs at least one hex digit before anything else.
+            _ if count == 0 && !b.is_ascii_hexdigit() => return Err(InvalidChunkSize),
             b'0' ..= b'9' if in_chunk_size => {
                 if count > 15 {
                     return Err(InvalidChunkSize);
